@@ -22,8 +22,13 @@ def _persist_wrappers(rep, cr):
         uses = A.Uses(f)
         app = A.calls_to(f, ('re', r'RaftWal.*::append$'))
         cut = set()
+        passthrough = set()
         for c in app:
-            cut |= A.call_outcome(f, c, uses).ok
+            o = A.call_outcome(f, c, uses)
+            cut |= o.ok
+            if not o.ok and o.returned:
+                # the append's Result is the function's result (`wal.lock().append(..).map_err(..)` as the tail expression)
+                passthrough.add(c.bb)
         none_edges = set()
         for b in f.bbs:
             if b['cleanup']:
@@ -31,7 +36,7 @@ def _persist_wrappers(rep, cr):
             for st in b['s']:
                 if st[1][0] == 'disc' and any(x.endswith('RaftNode.wal') for x in A.place_fields(st[1][1])):
                     none_edges |= A.outcome_edges(f, st[0][0], kind='disc_option', uses=uses).err
-        if app and cut and not lib.success_return_reachable(f, [0], cut_edges=cut | none_edges):
+        if app and (cut or passthrough) and not lib.success_return_reachable(f, [0], cut_edges=cut | none_edges, cut_blocks=passthrough):
             out.append(name)
     if 'tensor_chain::raft::RaftNode::persist_log_entry' not in out:
         rep.violation('R10a', 'anchor-missing', 'persist_log_entry', '-', 'anchor-missing: persist_log_entry is not a function that returns Ok only after a successful WAL append')
@@ -242,6 +247,7 @@ def run(ctx, rep):
     wal_rules.r02f(ctx, rep, ['RaftWal'])
     wal_rules.r02g(ctx, rep, ['RaftWal'])
     wal_rules.r02h(ctx, rep, ['RaftWal'])
+    wal_rules.r02i(ctx, rep, ['RaftWal'])
     r10b_candidates(ctx, rep)
     if ctx.tier == 'thorough':
         witness.run(rep, 'R01a', ['RaftPersistentStateIsPrivate', 'RaftWalWriterIsPrivate'])
